@@ -322,10 +322,23 @@ func (e *Engine) pureExternal(full string) bool {
 	return pureExternals[full]
 }
 
-var pureExternals = map[string]bool{}
+// external functions assumed to have no effect on memory the repository can observe, to terminate and not to
+// panic; their results are unconstrained unless a library model says more. Each use is listed in the evidence.
+var pureExternals = map[string]bool{
+	"time.Parse": true, "time.Since": true, "(time.Time).After": true, "(time.Time).Format": true, "(time.Duration).Hours": true, "(time.Duration).Minutes": true,
+	"net/url.Parse": true, "(*net/url.URL).String": true, "(*net/url.URL).ResolveReference": true, "(*net/url.URL).Hostname": true, "(*net/url.URL).Port": true, "(*net/url.URL).RequestURI": true,
+	"(net/url.Values).Encode": true, "net.JoinHostPort": true,
+	"(*regexp.Regexp).FindStringSubmatch": true, "(*regexp.Regexp).FindAllStringSubmatch": true, "(*regexp.Regexp).ReplaceAllString": true, "regexp.MustCompile": true,
+	"os.Getenv": true,
+}
 
 func (e *Engine) initLib() {
 	e.lib = map[string]libModel{}
 	e.libEffects = map[string][]string{}
 	registerLib(e)
+	for _, f := range extraLib {
+		f(e)
+	}
 }
+
+var extraLib []func(*Engine)
